@@ -18,6 +18,8 @@ def run(tier, seed):
     wiring.a_subst_obligations(rep, tier)
     wiring.closure_obligations(rep, tier)
     wiring.class_compile_obligations(rep, tier)
+    from contracts import segments
+    segments.class_body_closure(rep, tier)
     wiring.ref_resolution_obligations(rep, tier)
     rep.assumptions.append('frame clause of the child contract: a child does not change user-visible names that are in scope at its entry '
                            '(G-scope is proved for every class under this hypothesis; it FAILS for Let itself - known finding)')
